@@ -189,6 +189,7 @@ LeafEq(R, a, b) ==
     [] a.k = "f32"  -> \/ b.k = "f32" /\ a.v = b.v
                        \/ "nan" \in R /\ b.k = "f32" /\ IsNaN32(a.v) /\ IsNaN32(b.v)
                        \/ "f2i" \in R /\ b.k = "int" /\ (a.i = b.v \/ (b.s # <<>> /\ b.s = a.v))
+                       \/ "f2i" \in R /\ b.k = "f32" /\ a.i # <<>> /\ a.i = b.i            \* -0 and 0
                        \/ "f32as64" \in R /\ b.k = "f64" /\ b.s = a.v
                        \/ "nonfin" \in R /\ IsNonFinite32(a.v) /\ b.k = "nil"
     [] OTHER -> FALSE
